@@ -45,7 +45,8 @@ def codecItem (S : Schema) (name : String) (fuel : Nat) (ty : Option Ty) (j : Js
                      ("cpp_dec", vj (Cpp.cppDec t (unpack bs))), ("dyn_dec", vj (Cpp.dynDec t (unpack bs))),
                      ("reads", reads t (unpack bs)), ("weight", weight t), ("pos_width", Json.bool (PosWidth t))]
     | none => pure ()
-    out := out ++ [("py_dec", exceptJson J.valToJson (pyDecode S fuel name bs))]
+    if (j.getObjVal? "no_py").toOption.isNone then
+      out := out ++ [("py_dec", exceptJson J.valToJson (pyDecode S fuel name bs))]
   | .error _ => pure ()
   return Json.mkObj out
 
